@@ -396,6 +396,18 @@ def gen_C07(rng, tier):
             i = rng.randrange(k)
             cmds += [('reiter', i), ('drain', i, 40, 1)]      # a second for loop over an exhausted iterator yields nothing
         out.append(Q({'doc': d, 'cmds': cmds}))
+    for _ in range(sized(tier, 250, 3000)):
+        d = rand_doc(rng, big=rng.random() < 0.3)
+        sub = qcase.fix_path([rng.choice([('gwc', True, False), ('rec', False), ('wc', False), ('lwc', False)])] +
+                             ([('pred', rng.choice([('user', 'data'), ('user', 'data_eq', rng.choice(qcase.SCALARS))]))] if rng.random() < 0.5 else []))
+        op = rng.choice([None] + qcase.OPS)
+        const = rng.choice(qcase.SCALARS) if op else None
+        fns = [rng.choice(qcase.FNS) for _k in range(rng.choice([0, 1, 1, 2]))]
+        h = ('has', sub, op, const, fns, 'has')
+        pre = derive_path(rng, d, CHILD + ('rec',), maxextra=0, pred_depth=0)[:rng.choice([0, 1, 2])]
+        p = qcase.fix_path(pre + [rng.choice([('gwc', True, False), ('rec', False)]), ('pred', h)])
+        cmds = [('iter', 'doc', p, False, False), ('next', 0), ('next', 0), ('drain', 0, 30, 1)]
+        out.append(Q({'doc': d, 'cmds': cmds}))
     # several live iterators started from ONE Match (nested searches share their source), advanced in turns (C07-m4)
     for _ in range(sized(tier, 300, 4000)):
         d = rand_doc(rng)
@@ -675,6 +687,10 @@ def gen_C17(rng, tier):
             vals = rng.random() < 0.3
             cmds = [('iter', 'doc', p, vals, False), ('drain', 0, 50, 1), ('iter', 'doc', p, vals, True), ('drain', 1, 50, 1)]
         elif r < 0.8:
+            if rng.random() < 0.25:
+                strs = [loc for loc, v in qcase.collect_nodes(d) if isinstance(v, str) and v]
+                if strs:
+                    p = mcase_loc_to_path(rng.choice(strs)) + [('idx', rng.choice([0, -1]))]
             cmds = [('get_match', 'doc', p, False, False), ('get_match', 'doc', p, False, True),
                     ('get', 'doc', p, ('const', 0), False), ('get', 'doc', p, ('const', 0), True)]
         else:
